@@ -49,16 +49,46 @@ def blob_strategy(n):
                                   'blob_ops': st.lists(op, min_size=3, max_size=n)})
 
 
+KINDS_PLAIN = ['N', 'N', 'M', 'L']
+
+
 def strategy(tier):
     n = 20 if tier == 'quick' else 40
     plain = st.fixed_dictionaries({'kind': st.sampled_from(['fs', 'mapping', 'demo']),
                                    'ops': st.lists(objprog.op_strategy({'savepoint'}), min_size=3, max_size=n)})
+    free_op = objprog.op_strategy({'savepoint'})
+
+    @st.composite
+    def phased(draw):
+        """savepoints taken after a rollback: change A, savepoint, change B, savepoint, roll back to one of them, change
+        C (a different object with a record of the same size, or the same one), savepoint, change again, roll back -
+        "rollbacks after further savepoints" with the temporary store back at an earlier position in between"""
+        kind = draw(st.sampled_from(KINDS_PLAIN))
+        prog = [['new', kind, 0, sl, 'r'] for sl in objprog.SLOTS] + [['commit']]
+        # (the world starts with one object of each kind; the three new ones - same kind, same shape, records of the same
+        # size - are live objects 4..6)
+        idx = st.sampled_from([4, 5, 6, 4, 5, 6, 1, 2])
+        val = st.integers(1, 9)
+        slot = st.sampled_from(objprog.SLOTS)
+        prog += draw(st.lists(free_op, max_size=2))
+        for _ in range(draw(st.integers(1, 2))):
+            prog += [['set', draw(idx), draw(slot), draw(val)], ['savepoint']]
+        prog += [['set', draw(idx), draw(slot), draw(val)], ['savepoint'], ['rollback', draw(st.integers(0, 2))]]
+        for _ in range(draw(st.integers(1, 2))):
+            prog += [['set', draw(idx), draw(slot), draw(val)], ['savepoint']]
+        prog += [['set', draw(idx), draw(slot), draw(val)], ['rollback', draw(st.sampled_from([0, 1, 2, 3, 3, 4, 5]))]]
+        prog += [['read', i] for i in range(7)]
+        if draw(st.booleans()):
+            prog += [['rollback', draw(st.integers(0, 5))]] + [['read', i] for i in range(7)]
+        prog += draw(st.lists(free_op, max_size=3)) + [['commit']]
+        return prog
+    phased_case = st.fixed_dictionaries({'kind': st.sampled_from(['fs', 'mapping', 'demo']), 'ops': phased()})
     # "committing after savepoints stores exactly the final states; aborting discards everything": commits of
     # transactions with savepoints that are interrupted (conflict on a saved object, failing participant,
     # unpicklable object) and then the connection is used again - the programs of C05's connection cases
     from checks import c05_unfinished
     interrupted = c05_unfinished.conn_strategy(tier).map(lambda c: {'kind': c['kind'], 'ops': c['ops']})
-    return st.integers(0, 99).flatmap(lambda r: blob_strategy(n) if r < 25 else interrupted if r < 45 else plain)
+    return st.integers(0, 99).flatmap(lambda r: blob_strategy(n) if r < 25 else interrupted if r < 45 else phased_case if r < 60 else plain)
 
 
 def execute_blobs(case):
